@@ -687,6 +687,11 @@ def pipeline(ctx, st, repaired):
 
 
 def correspond(ctx):
+    with factory.BalancedReports(ctx):
+        _correspond(ctx)
+
+
+def _correspond(ctx):
     st = factory.load()
     repaired, wrong = unit_map(ctx, st)
     unit_register(ctx, st)
